@@ -30,6 +30,8 @@ type fastConn struct {
 	ids    chan string
 	failW  bool // guarded by mu: every later write fails
 	fail   chan struct{} // when closed, reads fail (the harness's fault, distinct from the client's Close)
+	mtype  int           // message type ReadMessage reports (0: like the x/net adapter of docs/subscriptions.md, which never sets it)
+	inits  chan string   // when non-nil, receives the connection_init frames written
 	closes int           // guarded by mu: how often the client closed this connection
 }
 
@@ -39,6 +41,12 @@ func (c *fastConn) WriteMessage(mt int, data []byte) error {
 	c.mu.Unlock()
 	if fw {
 		return errors.New("write: broken pipe")
+	}
+	if mt != 8 && c.inits != nil && strings.Contains(string(data), `"connection_init"`) {
+		select {
+		case c.inits <- string(data):
+		default:
+		}
 	}
 	if mt != 8 {
 		s := string(data)
@@ -58,6 +66,9 @@ func (c *fastConn) WriteMessage(mt int, data []byte) error {
 func (c *fastConn) ReadMessage() (int, []byte, error) {
 	select {
 	case m := <-c.in:
+		if c.mtype != 0 {
+			return c.mtype - 1, m, nil // mtype 1 -> type 0 (unset), 3 -> 2 (binary)
+		}
 		return 1, m, nil
 	case <-c.closed:
 		return 0, nil, errors.New("closed")
@@ -388,9 +399,119 @@ func wsProbeSecondStart(ackFails bool) func() string {
 	}
 }
 
+// a connection whose ReadMessage does not report the text message type (the adapter shown in docs/subscriptions.md
+// leaves it at zero; a server may also send binary frames): payloads are delivered all the same
+func wsProbeMessageType(mtype int) func() string {
+	return func() string {
+		conn := &fastConn{in: make(chan []byte, 16), closed: make(chan struct{}), ids: make(chan string, 8), mtype: mtype}
+		conn.in <- []byte(`{"type":"connection_ack"}`)
+		cl := graphql.NewClientUsingWebSocket("ws://h/q", fastDialer{conn})
+		errCh, err := cl.Start(context.Background())
+		if err != nil {
+			return ""
+		}
+		fwd := func(c interface{}, raw json.RawMessage) error { c.(chan string) <- string(raw); return nil }
+		ch := make(chan string)
+		id, err := cl.Subscribe(wsReq, ch, fwd)
+		if err != nil {
+			return ""
+		}
+		<-conn.ids
+		conn.in <- []byte(fmt.Sprintf(`{"type":"next","id":%q,"payload":{"data":{"p":"x1"}}}`, id))
+		select {
+		case v := <-ch:
+			if !strings.Contains(v, "x1") {
+				return "next-not-delivered a payload other than the one sent arrived: " + v
+			}
+		case e := <-errCh:
+			return fmt.Sprintf("next-not-delivered with a connection that reports message type %d the client reported: %v", mtype-1, e)
+		case <-time.After(2 * time.Second):
+			return fmt.Sprintf("next-not-delivered with a connection that reports message type %d for its frames, a next never reached its channel", mtype-1)
+		}
+		conn.in <- []byte(fmt.Sprintf(`{"type":"complete","id":%q}`, id))
+		select {
+		case _, ok := <-ch:
+			if ok {
+				return "delivery-after-end a value arrived after complete"
+			}
+		case <-time.After(2 * time.Second):
+			return fmt.Sprintf("channel-not-closed-after-end with message type %d the channel was not closed after complete", mtype-1)
+		}
+		cl.Close()
+		return ""
+	}
+}
+
+// the context given to Start ends (cancel) while the client is in use, then the application closes the client once
+func wsProbeCancelThenClose() string {
+	conn := &fastConn{in: make(chan []byte, 16), closed: make(chan struct{}), ids: make(chan string, 8)}
+	conn.in <- []byte(`{"type":"connection_ack"}`)
+	cl := graphql.NewClientUsingWebSocket("ws://h/q", fastDialer{conn})
+	ctx, cancel := context.WithCancel(context.Background())
+	if _, err := cl.Start(ctx); err != nil {
+		cancel()
+		return ""
+	}
+	fwd := func(c interface{}, raw json.RawMessage) error { c.(chan string) <- string(raw); return nil }
+	if _, err := cl.Subscribe(wsReq, make(chan string), fwd); err != nil {
+		cancel()
+		return ""
+	}
+	cancel()
+	time.Sleep(100 * time.Millisecond)
+	res := make(chan string, 1)
+	go func() {
+		defer func() {
+			if p := recover(); p != nil {
+				res <- fmt.Sprintf("panic:close-after-context-cancel Close after the context given to Start was cancelled panicked: %v", p)
+			}
+		}()
+		cl.Close()
+		res <- ""
+	}()
+	select {
+	case r := <-res:
+		return r
+	case <-time.After(3 * time.Second):
+		return "api-call-blocked:close Close after the context given to Start was cancelled did not return"
+	}
+}
+
+// the same option values used for two clients: each client's connection_init carries ITS configured payload
+func wsProbeSharedOptionValue() string {
+	initOf := func(withB bool) string {
+		common := graphql.WithConnectionParams(map[string]interface{}{"app": "demo"})
+		connA := &fastConn{in: make(chan []byte, 16), closed: make(chan struct{}), ids: make(chan string, 8), inits: make(chan string, 4)}
+		connA.in <- []byte(`{"type":"connection_ack"}`)
+		clA := graphql.NewClientUsingWebSocket("ws://h/q", fastDialer{connA}, common, graphql.WithConnectionParams(map[string]interface{}{"authToken": "token-A"}))
+		if withB {
+			connB := &fastConn{in: make(chan []byte, 16), closed: make(chan struct{}), ids: make(chan string, 8)}
+			_ = graphql.NewClientUsingWebSocket("ws://h/q", fastDialer{connB}, common, graphql.WithConnectionParams(map[string]interface{}{"authToken": "token-B"}))
+		}
+		if _, err := clA.Start(context.Background()); err != nil {
+			return "start failed: " + err.Error()
+		}
+		defer clA.Close()
+		select {
+		case f := <-connA.inits:
+			return f
+		case <-time.After(time.Second):
+			return "no connection_init"
+		}
+	}
+	alone, together := initOf(false), initOf(true)
+	if alone != together {
+		return "init-payload-differs client A's connection_init is " + alone + " when it is the only client and " + together + " after a second client was built from the same option value"
+	}
+	if strings.Contains(together, "token-B") {
+		return "init-payload-differs client A's connection_init carries another client's parameters: " + together
+	}
+	return ""
+}
+
 func wsStressChild(c *Ctx, n int) {
 	w := bufio.NewWriter(os.Stdout)
-	for _, probe := range []func() string{wsProbeTwoBadFramesThenClose, wsProbeLateNextAfterUnsubscribe, wsProbeCloseFailingWritesUndrained, wsProbeSecondStart(false), wsProbeSecondStart(true)} {
+	for _, probe := range []func() string{wsProbeTwoBadFramesThenClose, wsProbeLateNextAfterUnsubscribe, wsProbeCloseFailingWritesUndrained, wsProbeSecondStart(false), wsProbeSecondStart(true), wsProbeMessageType(1), wsProbeMessageType(3), wsProbeCancelThenClose, wsProbeSharedOptionValue} {
 		if msg := probe(); msg != "" {
 			fmt.Fprintf(w, "PROBE %s\n", msg)
 		}
